@@ -76,7 +76,7 @@ def catalogue():
                         if partner == "hostile" and axi2axil and stype == "axil":
                             continue
                         out.append({"dut": "socbus", "std": std, "bdw": bdw, "mtype": mtype, "dw": mdw, "stype": stype, "sdw": sdw,
-                                    "ic": ["shared", "crossbar"][(k // 4) % 2], "partner": partner})
+                                    "ic": ["shared", "crossbar"][(k // 4) % 2], "maddr": ["word", "byte"][(k // 2) % 2], "partner": partner})
     for cfg in c:
         for partner in ("litex", "hostile", "err", "err-simple"):
             if partner.startswith("err") and cfg["dut"] in ("axil_sram", "axil2csr", "axil_up"):
@@ -106,7 +106,7 @@ def sched_for(rng, partner):
     return make_sched(rng)[0]
 
 
-def add_wb_backing(top, bench, rng, bus, dw, partner, base_words=0):
+def add_wb_backing(top, bench, rng, bus, dw, partner, base_words=0, reads_select_all=False):
     init = [rng.getrandbits(dw) for _ in range(WORDS)]
     mon = None
     if partner == "litex":
@@ -117,7 +117,7 @@ def add_wb_backing(top, bench, rng, bus, dw, partner, base_words=0):
         mem = {i: x for i, x in enumerate(init)}
         slv = bench.add(WBSlave(bus, rng, "wbmem", lat=rng.choice([(0, 0), (0, 2)] if partner == "err-simple" else [(0, 0), (0, 5), (2, 6)]),
                                 mem=mem, err_p=0.15 if partner.startswith("err") else 0.0, err_with_ack=True))
-    mon = bench.add(WBProtocolMonitor(bus, "wb-slave-side", check_hold=True))
+    mon = bench.add(WBProtocolMonitor(bus, "wb-slave-side", check_hold=True, reads_select_all=reads_select_all))
     return bytes_of(init, dw), slv, [mon]
 
 
@@ -439,9 +439,9 @@ def run_case(case):
             # byte-addressed Wishbone: the backing BFM/SRAM are word addressed -> shim that drops the low bits
             wbw = wishbone.Interface(data_width=dw, adr_width=aw_bits - (nb.bit_length() - 1))
             top.comb += [wb.connect(wbw, omit={"adr"}), wbw.adr.eq(wb.adr[nb.bit_length() - 1:])]
-            init, slv, smons = add_wb_backing(top, bench, rng, wbw, dw, partner)
+            init, slv, smons = add_wb_backing(top, bench, rng, wbw, dw, partner, reads_select_all=(d == "axil2wb"))
         else:
-            init, slv, smons = add_wb_backing(top, bench, rng, wb, dw, partner)
+            init, slv, smons = add_wb_backing(top, bench, rng, wb, dw, partner, reads_select_all=(d == "axil2wb"))
         m = (mk_axil_master if d == "axil2wb" else mk_axi_master)(bench, rng, mbus, writes, reads, partner, hostile)
         mm = port_monitors(bench, mbus, "master-side", "responses")
         bench.add(ActivityWatch(list(mm.values()), hostile, quiet=300))
@@ -565,7 +565,8 @@ def run_case(case):
         mk_if = {"wb": lambda w: wishbone.Interface(data_width=w, adr_width=32 - ((w // 8).bit_length() - 1)),
                  "axil": lambda w: axi.AXILiteInterface(data_width=w, address_width=32),
                  "axi": lambda w: axi.AXIInterface(data_width=w, address_width=32)}
-        mbus = mk_if[mtype](dw)
+        mbyte = mtype == "wb" and cfg.get("maddr") == "byte"
+        mbus = mk_if[mtype](dw) if not mbyte else wishbone.Interface(data_width=dw, address_width=32, addressing="byte")
         bus.add_master("m", master=mbus)
         sb0, sb1 = mk_if[stype](sdw), mk_if[stype](sdw)
         size = WORDS * nb                                   # the window the master's script works in, in bytes
@@ -587,7 +588,7 @@ def run_case(case):
         bus.add_slave("s0", slave=sb0, region=SoCRegion(origin=base, size=size))
         bus.add_slave("s1", slave=sb1, region=SoCRegion(origin=0x20000, size=0x100))
         if mtype == "wb":
-            ops = gen_wb_ops(rng, dw, base // nb, n * 2)
+            ops = gen_wb_ops(rng, dw, base // nb, n * 2, byte_addressing=mbyte)
             m = bench.add(WBMaster(mbus, ops, "m", max_wait=3000))
         elif mtype == "axil":
             writes, reads = gen_axil_script(rng, dw, base, n)
